@@ -18,7 +18,8 @@ CONSTANTS Site,        \* "config" | "field" | "codec"
           MaxLen,
           RegMode,
           Faults,      \* TRUE: the input alphabet of C05 (variant found, but its own field missing / invalid)
-          Walk         \* "recursive" (what the documentation promises) | "direct" (deviant: direct subclasses only)
+          Walk,        \* "recursive" (what the documentation promises) | "direct" (deviant: direct subclasses only)
+          Nested       \* TRUE: a variant N (tag "n") that declares its OWN class-level discriminator on field "kind" (two dispatch levels)
 VARIABLES defined, registry, registry2, decoder, hist, last
 \* Site = "pair": ONE field  f: Tuple[Annotated[R, D], Annotated[R2, D]]  with two EQUAL discriminators over two
 \* different hierarchies that share a tag ("a"): each position must resolve inside its own hierarchy (registry / registry2).
@@ -42,7 +43,13 @@ Root2 == <<"dc", "R2", RootFields, CV("r2")>>
 Sub2(name, extra, tag) == <<"dc", name, RootFields \o extra, << <<"bases", <<Root2>> >> >> \o CV(tag)>>
 CA2 == Sub2("A2", <<Req("x")>>, "a")
 CC2 == Sub2("C2", <<Req("y")>>, "c")
-Candidates == IF Site = "pair" THEN {CA, CB, CA2, CC2} ELSE {CA, CB, CA1, CX}
+\* two levels: R --type--> N --kind--> N1 / N2.  N's own Config carries Discriminator(field="kind", include_subtypes=True)
+KOpts == << <<"field", "kind">>, <<"include_subtypes", TRUE>> >>
+CN  == <<"dc", "N", RootFields \o <<Req("x")>>, << <<"bases", <<Root>> >> >> \o CV("n") \o << <<"discriminator", KOpts>>, <<"discr_field", "kind">> >> >>
+KV(t) == << <<"classvars", << <<"kind", S(t)>> >> >> >>
+CN1 == <<"dc", "N1", DcFields(CN) \o <<Req("z")>>, << <<"bases", <<CN>> >> >> \o KV("k1")>>
+CN2 == <<"dc", "N2", DcFields(CN) \o <<Req("y")>>, << <<"bases", <<CN>> >> >> \o KV("k2")>>
+Candidates == IF Nested THEN {CA, CN, CN1, CN2} ELSE IF Site = "pair" THEN {CA, CB, CA2, CC2} ELSE {CA, CB, CA1, CX}
 
 HolderT == IF Site = "pair"
            THEN <<"dc", "HD", << <<"f", <<"tuple", << <<"discr", Root, DOpts>>, <<"discr", Root2, DOpts>> >> >>, <<"req">>, <<>> >> >>, <<>> >>
@@ -50,8 +57,10 @@ HolderT == IF Site = "pair"
 
 Body(t) == << <<S("v"), I(0)>>, <<S("x"), I(1)>>, <<S("y"), I(2)>>, <<S("z"), I(3)>>, <<S("w"), I(4)>> >>
            \o (IF t = "" THEN <<>> ELSE << <<S("type"), S(t)>> >>)
+NBody(t, k) == Body(t) \o (IF k = "" THEN <<>> ELSE << <<S("kind"), S(k)>> >>)
+NestedInputs == { Dct(NBody("n", "k1")), Dct(NBody("n", "k2")), Dct(NBody("n", "")), Dct(NBody("n", "zz")), Dct(NBody("a", "")), Dct(NBody("", "k1")) }
 PairInputs == { L(<<Dct(Body(t1)), Dct(Body(t2))>>) : t1 \in {"a", "b", "c", "zz"}, t2 \in {"a", "b", "c", "zz"} }
-Inputs == IF Site = "pair" THEN PairInputs ELSE IF WithField
+Inputs == IF Nested THEN NestedInputs ELSE IF Site = "pair" THEN PairInputs ELSE IF WithField
           THEN (IF Faults
                 THEN \* the tag names an existing variant whose OWN required key is absent / ill-typed: the variant's MissingField /
                      \* InvalidFieldValue must surface (not "no such variant") -- whether the registry is cold or warm (C05)
@@ -90,7 +99,7 @@ PosResult(reg, refill, j) ==
   ELSE LET t == PairsGet(j[2], S("type"))
            reg2 == IF RegLookup(reg, t) = "#miss" THEN reg \cup refill ELSE reg
            n == RegLookup(reg2, t) IN
-       IF n = "#miss" THEN Err(<<"NoVariant">>) ELSE FromDict(ByName(AllDefined, n), Cx, j)
+       IF n = "#miss" THEN Err(<<"NoVariant">>) ELSE FromDictD(defined, ByName(AllDefined, n), Cx, j)
 PosReg(reg, refill, j) ==
   IF j[1] = "dict" /\ PairsHas(j[2], S("type")) /\ RegLookup(reg, PairsGet(j[2], S("type"))) = "#miss" THEN reg \cup refill ELSE reg
 \* result computed THROUGH the registry (hit, else refill and look again)
@@ -103,7 +112,7 @@ ImplResult(j) ==
   ELSE LET t == PairsGet(j[2], S("type"))
            reg2 == IF RegLookup(registry, t) = "#miss" THEN Refilled ELSE registry
            n == RegLookup(reg2, t) IN
-       IF n = "#miss" THEN Err(<<"NoVariant">>) ELSE FromDict(ByName(<<Root>> \o defined, n), Cx, j)
+       IF n = "#miss" THEN Err(<<"NoVariant">>) ELSE FromDictD(defined, ByName(<<Root>> \o defined, n), Cx, j)
 \* the pair site: position 1 then position 2; in the deviant "shared" mode both positions read and fill ONE map
 PairImpl(j) ==
   LET j1 == j[2][1] j2 == j[2][2]
